@@ -1,0 +1,30 @@
+// SPDX-FileCopyrightText: 2026 The Pion community <https://pion.ly>
+// SPDX-License-Identifier: MIT
+
+//go:build verif
+
+// Package verifhook provides yield points used by the external verification
+// harness. With the verif build tag a harness may install a function that is
+// called at every yield point; until it does, Yield returns immediately.
+package verifhook
+
+import "sync/atomic"
+
+var yield atomic.Pointer[func(string)]
+
+// Yield marks a scheduling point.
+func Yield(site string) {
+	if f := yield.Load(); f != nil {
+		(*f)(site)
+	}
+}
+
+// Set installs (or, with nil, removes) the function called at every yield point.
+func Set(f func(string)) {
+	if f == nil {
+		yield.Store(nil)
+
+		return
+	}
+	yield.Store(&f)
+}
